@@ -12,7 +12,8 @@
    is the statement that the counter has not wrapped below that bound). *)
 From Coq Require Import List NArith Arith Lia.
 From GmsmVerif Require Import Lib.Outcome SM3.SM3Spec SM3.HMACSpec SM3.HashSpec SM3.SM3Model
-  SM3.SM3Proofs SM3.SM3History SM3.HMACProofs SM3.SM3Heap SM3.SM3HeapProofs SM3.SM3Arith SM3.SM3ArithProofs SM3.SM3ModelConsts SM3.SM3ConstsProofs SM3.SM3Fast SM3.SM3FastProofs Gen.SM3IV Gen.SM3Consts.
+  SM3.SM3Proofs SM3.SM3History SM3.HMACProofs SM3.SM3Heap SM3.SM3HeapProofs SM3.SM3Arith SM3.SM3ArithProofs SM3.SM3ModelConsts SM3.SM3ConstsProofs SM3.SM3Fast SM3.SM3FastProofs SM3.HMACMarshal SM3.HMACMarshalProofs SM3.GmtlsOps SM3.GmtlsOpsProofs
+  Agree.KeyModel Gen.SM3IV Gen.SM3Consts.
 Import ListNotations.
 Open Scope N_scope.
 
@@ -268,6 +269,42 @@ Theorem C04_hmac_sm3_fast_is_hmac_sm3 : forall key msg, hmac_sm3_fast key msg = 
 Proof. exact hmac_sm3_fast_eq. Qed.
 Print Assumptions C04_hmac_sm3_fast_is_hmac_sm3.
 
+(* (i) Both paths of Go 1.23 crypto/hmac.  hmac.Reset switches to MarshalBinary/UnmarshalBinary snapshots
+   when the hash implements encoding.BinaryMarshaler; *sm3.SM3 does not (checked by the driver with a
+   type assertion on every run, case class B), so the path of (d) is the one taken.  Whichever path is
+   taken (snapshot = exact copy of the state), the object gives the results of (d). *)
+Theorem C04_hmac_both_reset_paths :
+  forall marshalable key ops,
+    exists hM h, hmacM_New key = Ok hM /\ hmac_New key = Ok h /\
+      snd (hmacM_run marshalable hM ops) = snd (hmac_run h ops) /\
+      snd (hmacM_run marshalable hM ops) = ref_run (hmac_sm3 key) [] ops.
+Proof. exact hmacM_agrees_with_hmac. Qed.
+Print Assumptions C04_hmac_both_reset_paths.
+
+(* (j) gmtls's uses of SM3, as the hash.Hash operations they issue (SM3/GmtlsOps.v), on the hmac and SM3
+   models.  prf12(sm3.New) / pHash: hmac.New, Write, Sum(nil), then per output block Reset, Write, Write,
+   Sum(nil), Reset, Write, Sum(nil) - equals the function-level model of gmtls/prf.go that C06 reasons
+   about (Agree/KeyModel.v) at HMAC-SM3, hence (C06_prf_sm3_is_p_hash) P_SM3 of GM/T 0024 / RFC 5246
+   section 5: the chain sm3.go -> hash.Hash contract -> crypto/hmac -> pHash -> P_SM3 in one statement,
+   for every secret, label, seed and output length n (fuel n suffices: no hang). *)
+Theorem C04_gmtls_prf_via_hash_ops :
+  forall fuel n secret label seed, (n <= fuel)%nat ->
+    prf12_sm3_ops fuel n secret label seed = prf12 hmac_sm3 fuel n secret label seed /\
+    prf12_sm3_ops fuel n secret label seed = Ok (PRF_spec hmac_sm3 n secret label seed).
+Proof.
+  intros fuel n secret label seed H. split; [apply prf12_sm3_ops_spec|apply prf12_sm3_ops_is_P_SM3; exact H].
+Qed.
+Print Assumptions C04_gmtls_prf_via_hash_ops.
+
+(* macSM3 / tls10MAC.MAC: one hmac object per connection direction, for every list of records each MAC
+   call (Reset, Write seq, Write header, Write data, Sum(digestBuf[:0]), optional Write extra) returns
+   HMAC-SM3(key, seq ++ header ++ data); the extra bytes written for constant time never leak into a MAC *)
+Theorem C04_gmtls_mac_via_hash_ops :
+  forall key recs, exists h, macSM3 key = Ok h /\
+    tls10MAC_run h recs = map (fun '(seq, header, data, extra) => Ok (hmac_sm3 key (seq ++ header ++ data))) recs.
+Proof. exact macSM3_run_spec. Qed.
+Print Assumptions C04_gmtls_mac_via_hash_ops.
+
 (* ---------- non-vacuity: concrete instances, evaluated ---------------------------------------------- *)
 (* a state with dirty scratch arrays and one block left: the hypotheses of (a) are met *)
 Example C04_compress_example :
@@ -345,3 +382,14 @@ Example C04_sm3_fast_example :
   [0x66;0xc7;0xf0;0xf4; 0x62;0xee;0xed;0xd9; 0xd1;0xf2;0xd4;0x6b; 0xdc;0x10;0xe4;0xe2;
    0x41;0x67;0xc4;0x87; 0x5c;0xf2;0xf7;0xa2; 0x29;0x7d;0xa0;0x2b; 0x8f;0x4b;0xa8;0xe0].
 Proof. vm_compute. reflexivity. Qed.
+
+(* 40 bytes of P_SM3 (two HMAC blocks, the second truncated), and two records MACed with one object,
+   the first with extra bytes *)
+Example C04_gmtls_example :
+  prf12_sm3_ops 40 40 [1; 2; 3] [0x6b] [9; 9] = Ok (PRF_spec hmac_sm3 40 [1; 2; 3] [0x6b] [9; 9]) /\
+  exists h, macSM3 [7; 7] = Ok h /\
+    tls10MAC_run h [([0; 0; 0; 0; 0; 0; 0; 1], [23; 1; 1; 0; 2], [0x61; 0x62], Some [5; 5; 5]);
+                    ([0; 0; 0; 0; 0; 0; 0; 2], [23; 1; 1; 0; 1], [0x63], None)] =
+    [Ok (hmac_sm3 [7; 7] [0; 0; 0; 0; 0; 0; 0; 1; 23; 1; 1; 0; 2; 0x61; 0x62]);
+     Ok (hmac_sm3 [7; 7] [0; 0; 0; 0; 0; 0; 0; 2; 23; 1; 1; 0; 1; 0x63])].
+Proof. split; [vm_compute; reflexivity|eexists; split; vm_compute; reflexivity]. Qed.
